@@ -434,8 +434,8 @@ func (w *c03World) lookup(sni, local, def, fb string, hv int) {
 		viewTok = strings.Join(views, ",")
 	}
 	w.o.Line("look %d %s %d %s %s %s %s %s %s %s %s %s %s => %s %s", w.cap, w.state, w.now.UnixNano(), viewTok,
-		c03Opt(def != "", def), hexRunes(normalizedName(def)), c03Opt(fb != "", fb), hexRunes(normalizedName(fb)),
-		hexRunes(sni), hexRunes(normalizedName(sni)), connTok, idnaTok, stored, fc, ans)
+		c03Opt(def != "", def), hexRunes(vNormNameRef(def)), c03Opt(fb != "", fb), hexRunes(vNormNameRef(fb)),
+		hexRunes(sni), hexRunes(vNormNameRef(sni)), connTok, idnaTok, stored, fc, ans)
 	w.o.Stat("hello_"+w.hellos[hv].name, 1)
 	if time.Now() != w.now {
 		panic("virtual clock moved")
